@@ -919,3 +919,24 @@ impl<I: Interner> TypeFoldable<I> for ProgramClause<I> {
         folder.try_fold_program_clause(self, outer_binder)
     }
 }
+
+/// Verification hook: public wrappers over the in-place map functions so that
+/// they can be driven with drop-tracking element types.
+#[cfg(feature = "verif-hooks")]
+pub mod verif_hooks {
+    /// See `in_place::fallible_map_vec`.
+    pub fn fallible_map_vec<T, U, E>(
+        vec: Vec<T>,
+        map: impl FnMut(T) -> Result<U, E>,
+    ) -> Result<Vec<U>, E> {
+        super::in_place::fallible_map_vec(vec, map)
+    }
+
+    /// See `in_place::fallible_map_box`.
+    pub fn fallible_map_box<T, U, E>(
+        b: Box<T>,
+        map: impl FnOnce(T) -> Result<U, E>,
+    ) -> Result<Box<U>, E> {
+        super::in_place::fallible_map_box(b, map)
+    }
+}
